@@ -28,6 +28,15 @@ static void equal_pair(const char* dom, var a, var b, const char* desc) {
   if (hash(a) != ha) { vh_violation(K(dom, "hash-not-a-function-of-the-value"), "two calls of hash on the same object differ for %s", desc); }
 }
 
+/* arbitrary (not necessarily equal) pair: whenever the library says eq, the hashes must agree */
+static void implication_pair(const char* dom, var a, var b, const char* desc) {
+  vh_eval();
+  if (eq(a, b)) {
+    vh_count("arbitrary_pairs_found_eq");
+    if (hash(a) != hash(b)) { vh_violation(K(dom, "eq-but-different-hash"), "eq holds but hashes differ for %s", desc); }
+  } else { vh_count("arbitrary_pairs_found_different"); }
+}
+
 /* copy(x) and assign(y, x) */
 static void copy_assign(const char* dom, var x, var blank, const char* desc) {
   var exc = NULL, c = NULL;
@@ -97,6 +106,8 @@ static void scalar_classes(vh_rng* r) {
     var inarr = get(arr, $I(0)); var key = iter_init(tab);
     snprintf(d, sizeof d, "Int %" PRId64 " stack/heap/raw/array-element/table-key", v);
     equal_pair("int", $I(v), heap, d); equal_pair("int", heap, raw, d); equal_pair("int", raw, inarr, d); equal_pair("int", inarr, key, d);
+    { int64_t w[] = { (int64_t)((uint64_t)v + 1), (int64_t)((uint64_t)v - 1), (int64_t)((uint64_t)v ^ ((uint64_t)1 << 32)), (int64_t)((uint64_t)v ^ ((uint64_t)1 << 63)), (int32_t)v };
+      for (int q = 0; q < 5; q++) { char dd[96]; snprintf(dd, sizeof dd, "Int %" PRId64 " vs %" PRId64, v, w[q]); implication_pair("int", heap, $I(w[q]), dd); } }
     copy_assign("int", inarr, new(Int), d);
     var o = new(Int, $I(v + 1));
     swap_check("int", heap, o, d);
@@ -117,6 +128,19 @@ static void scalar_classes(vh_rng* r) {
     snprintf(d, sizeof d, "Float %a stack/heap/list-element", v);
     equal_pair("float", $F(v), heap, d); equal_pair("float", heap, get(arr, $I(0)), d);
     if (v == 0.0) { equal_pair("float", $F(0.0), $F(-0.0), "Float 0.0 vs -0.0"); vh_count("signed_zero_pairs"); }
+    /* near neighbours: different values that a sloppy comparison might call equal */
+    {
+      double near[] = { nextafter(v, INFINITY), nextafter(v, -INFINITY), v + v * 1e-16, v * (1.0 + 2.2e-16), v + 1e-300, (float)v };
+      for (int q = 0; q < 6; q++) {
+        if (near[q] != near[q]) { continue; }
+        char dd[120]; snprintf(dd, sizeof dd, "Float %a vs near neighbour %a", v, near[q]);
+        implication_pair("float", heap, $F(near[q]), dd);
+        var la = new(List, Float, $F(v)), lb = new(Array, Float, $F(near[q]));
+        implication_pair("sequence", la, lb, dd);
+      }
+      implication_pair("float", $F(0.1 + 0.2), $F(0.3), "0.1+0.2 vs 0.3");
+      implication_pair("float", $F(1e-300), $F(0.0), "1e-300 vs 0");
+    }
     copy_assign("float", heap, new(Float), d);
     swap_check("float", heap, new(Float, $F(v + 1.0)), d);
     keep_alive(arr);
@@ -132,6 +156,9 @@ static void scalar_classes(vh_rng* r) {
     var grown = new(String, $S(b)); resize(grown, n + 40); equal_pair("string", heap, grown, "String after a reserve");
     var built = new(String); for (size_t i = 0; i < n; i++) { char c[2] = { b[i], 0 }; append(built, $S(c)); }
     equal_pair("string", heap, built, "String built by appends");
+    { char b2[44]; snprintf(b2, sizeof b2, "%s", b); size_t m = strlen(b2);
+      if (m > 0) { b2[m - 1] = (char)(b2[m - 1] ^ 0x20 ? b2[m - 1] ^ 0x20 : 'x'); implication_pair("string", heap, $S(b2), "strings differing in the last byte"); b2[m - 1] = 0; implication_pair("string", heap, $S(b2), "string vs its prefix"); }
+      snprintf(b2, sizeof b2, "%s ", b); implication_pair("string", heap, $S(b2), "string vs itself plus a space"); }
     copy_assign("string", heap, new(String), d);
     swap_check("string", heap, new(String, $S("other")), d);
     keep_alive(arr); keep_alive(tr);
